@@ -49,6 +49,7 @@ class _W:
         self.p.start()
         child.close()
         self.pending = []   # list of (idx, task) not yet answered, in order
+        self.active = False  # a batch has been sent and its batch-done has not been received yet
         self.t_last = time.time()
 
     def kill(self):
@@ -83,6 +84,7 @@ def run_tasks(fn, tasks, workers=16, timeout=60.0, batch=16, init=None, env=None
         chunk = [(i, tasks[i]) for i in range(nxt, min(n, nxt + batch))]
         nxt += len(chunk)
         w.pending = list(chunk)
+        w.active = True
         w.t_last = time.time()
         w.parent.send(chunk)
         return True
@@ -93,20 +95,23 @@ def run_tasks(fn, tasks, workers=16, timeout=60.0, batch=16, init=None, env=None
         feed(w)
     retry = []   # tasks to be re-run alone after a hang/death of a batch-mate (they were never started)
     while done < n:
-        busy = [w for w in ws if w.pending]
+        # a worker is busy from the moment a batch is sent until its batch-done arrives (NOT merely while results are outstanding:
+        # its last result can be consumed before the batch-done message, and handing it more work then would desynchronise the bookkeeping)
+        busy = [w for w in ws if w.active]
         if not busy:
             # hand out leftovers (from killed workers) one by one
             if retry:
                 for w in ws:
-                    if not w.pending and retry:
+                    if not w.active and retry:
                         chunk = [retry.pop()]
                         w.pending = list(chunk)
+                        w.active = True
                         w.t_last = time.time()
                         w.parent.send(chunk)
                 continue
             if nxt < n:
                 for w in ws:
-                    if not w.pending:
+                    if not w.active:
                         feed(w)
                 continue
             break
@@ -120,6 +125,7 @@ def run_tasks(fn, tasks, workers=16, timeout=60.0, batch=16, init=None, env=None
                         w.t_last = now
                         if idx == "batch-done":
                             w.pending = []
+                            w.active = False
                             if fresh:
                                 w.kill()
                                 ws.remove(w)
@@ -128,6 +134,7 @@ def run_tasks(fn, tasks, workers=16, timeout=60.0, batch=16, init=None, env=None
                             if retry:
                                 chunk = [retry.pop()]
                                 w.pending = list(chunk)
+                                w.active = True
                                 w.parent.send(chunk)
                             else:
                                 feed(w)
@@ -151,7 +158,7 @@ def run_tasks(fn, tasks, workers=16, timeout=60.0, batch=16, init=None, env=None
                     nw = _W(fn, init, env, fresh)
                     ws.append(nw)
                     continue
-            elif w.pending and now - w.t_last > timeout:
+            elif w.active and w.pending and now - w.t_last > timeout:
                 idx, _t = w.pending[0]
                 results[idx] = ("hang", "no result within %.0fs" % timeout)
                 done += 1
@@ -165,8 +172,8 @@ def run_tasks(fn, tasks, workers=16, timeout=60.0, batch=16, init=None, env=None
     lost = [i for i in range(n) if results[i] is None]
     if lost:
         import sys
-        sys.stderr.write("pool: %d results lost (done=%d n=%d nxt=%d retry=%d pending=%s)\n" % (
-            len(lost), done, n, nxt, len(retry), [len(w.pending) for w in ws]))
+        sys.stderr.write("pool: %d results lost (done=%d n=%d nxt=%d retry=%d pending=%s) lost=%s alive=%s\n" % (
+            len(lost), done, n, nxt, len(retry), [len(w.pending) for w in ws], lost[:40], [w.p.is_alive() for w in ws]))
     if lost and _depth == 0:
         again = run_tasks(fn, [tasks[i] for i in lost], workers=workers, timeout=timeout, batch=1, init=init, env=env,
                           on_result=None, fresh=fresh, _depth=1)
